@@ -285,6 +285,7 @@ class Ctx:
         self.programs = 0
         self.disagreements_checked = 0
         self.corr_names = []
+        self.last_case = None
 
     @property
     def quick(self):
@@ -294,6 +295,8 @@ class Ctx:
         return quick if self.quick else thorough
 
     def case(self, key, nontrivial=True, sample=None):
+        alive()
+        self.last_case = key
         self.evaluations += 1
         if nontrivial:
             h = hashlib.sha1(repr(key).encode()).hexdigest()[:16]
@@ -302,11 +305,13 @@ class Ctx:
             self.samples.append(sample)
 
     def count(self, hist, key, k=1):
+        alive()
         d = self.dist.setdefault(hist, {})
         d[str(key)] = d.get(str(key), 0) + k
 
     def fail(self, key, what, replay):
         """The property itself fails on the implementation for a concrete input (replayable)."""
+        alive()
         self.failures.append({"key": key, "what": what, "replay": replay})
 
     def broke(self, what, detail):
@@ -314,6 +319,7 @@ class Ctx:
         self.broken.append({"what": what, "detail": detail})
 
     def compared(self, name, n=1):
+        alive()
         self.disagreements_checked += n
         if name not in self.corr_names:
             self.corr_names.append(name)
@@ -415,6 +421,14 @@ def finish(ctx, pinfo, gate_hits, build_ok, build_log, trusted_base, rule):
         len(ctx.distinct), ctx.disagreements_checked, len(ctx.failures), len(ctx.broken) + len(proof_problems), time.time() - ctx.t0))
     return 1 if viol else 0
 
+
+
+T_LAST = [time.time()]
+
+
+def alive():
+    """a sign of life for the stall detector of main.py (called at every case / count / comparison and before every library run)"""
+    T_LAST[0] = time.time()
 
 
 class Hang(Exception):
